@@ -39,6 +39,10 @@ var seeds = []seed{
 	{"regression:json-object-order", `"{\"b\":1,\"a\":2,\"c\":3,\"e\":4,\"d\":5,\"g\":6,\"f\":7,\"h\":8}" | json`, `[.[]]`},
 	{"regression:json-object-order", `"{\"b\":1,\"a\":2,\"c\":3,\"e\":4,\"d\":5,\"g\":6,\"f\":7,\"h\":8}" | json`, `to_entries | map(.key) | join("")`},
 	{"diff:index:string~dv", `[0xa2, 0x61, 0x62] | tobytes | msgpack | .value`, `[.[5], .[-5], .[2]]`},
+	// add merged into the document's own map (repaired in cf6dbf9a): the second
+	// evaluation (tovalue side) then saw the changed document
+	{"regression:query-changes-the-decoded-document", `"{\"h\":1}" | json`, `[tojson, ([., {"zz":1}, {"zz":2}] | add | tojson), tojson]`},
+	{"regression:query-changes-the-decoded-document", `"[1]" | json`, `[tojson, ([., [2], [3]] | add | tojson), tojson]`},
 }
 
 func TestSeeds(t *testing.T) {
